@@ -161,6 +161,8 @@ func runC14(c *eng.Ctx) {
 	rulePooledBuffersDoNotEscape(c)
 	c.Rule("R14.13", "K6")
 	ruleEnvelopeMinimumLengthTestsAgree(c)
+	c.Rule("R01.11", "K1")
+	ruleValidAcceptsTheNullMarkerEverywhere(c)
 
 	// ---- R14.1 bounds on bytes that arrive from NATS
 	c.Rule("R14.1", "K9")
